@@ -57,6 +57,11 @@ pub struct Case {
     /// one, one over two empty ranges, the real one again)
     #[serde(default)]
     pub reuse: bool,
+    /// go through `algorithms::diff_slices(_deadline)` on the core slices
+    /// instead of `diff_deadline` with ranges (the six stacks of
+    /// `SLICE_STACKS` only)
+    #[serde(default)]
+    pub slices: bool,
     pub only_k: Option<u64>,
     pub cap: u64,
     pub sample_seed: u64,
@@ -102,6 +107,77 @@ pub fn reusable(stack: Stack) -> bool {
         stack,
         Stack::H | Stack::Hdefault | Stack::RefMutH | Stack::ReplaceH | Stack::ReplaceHdefault | Stack::ReplaceRefMutH
     )
+}
+
+pub const SLICE_STACKS: [Stack; 6] = [
+    Stack::H,
+    Stack::ReplaceH,
+    Stack::CompactH,
+    Stack::CompactReplaceH,
+    Stack::NoFinishH,
+    Stack::Hdefault,
+];
+
+/// The slices entry points: `diff_slices` without a deadline,
+/// `diff_slices_deadline` with one.
+pub fn run_stack_slices(
+    seq: &SeqCase,
+    stack: Stack,
+    fail_at: Option<usize>,
+    expire_at: Option<u64>,
+) -> Result<StackRun, String> {
+    use similar::algorithms::{diff_slices, diff_slices_deadline};
+    let oldc = counted(seq.old_core());
+    let newc = counted(seq.new_core());
+    let clock = SimClock::new(match expire_at {
+        Some(k) => Sched::Indexed(k),
+        None => Sched::Never,
+    });
+    let _guard = SimGuard::new(Some(clock), seq.hasher);
+    let _ = similar::verif::take_hits();
+    let dl = expire_at.map(|_| instant_at(DL));
+    let alg = seq.alg.to();
+    let (o, n) = (&oldc[..], &newc[..]);
+    macro_rules! go {
+        ($d:expr) => {
+            match dl {
+                Some(_) => diff_slices_deadline(alg, $d, o, n, dl),
+                None => diff_slices(alg, $d, o, n),
+            }
+        };
+    }
+    match stack {
+        Stack::ReplaceH => {
+            let mut d = Replace::new(RecHook::<true>::new(fail_at));
+            let r = guarded(|| go!(&mut d));
+            collect(d.into_inner(), r)
+        }
+        Stack::CompactH => {
+            let mut d = Compact::new(RecHook::<true>::new(fail_at), o, n);
+            let r = guarded(|| go!(&mut d));
+            collect(d.into_inner(), r)
+        }
+        Stack::CompactReplaceH => {
+            let mut d = Compact::new(Replace::new(RecHook::<true>::new(fail_at)), o, n);
+            let r = guarded(|| go!(&mut d));
+            collect(d.into_inner().into_inner(), r)
+        }
+        Stack::NoFinishH => {
+            let mut d = NoFinishHook::new(RecHook::<true>::new(fail_at));
+            let r = guarded(|| go!(&mut d));
+            collect(d.into_inner(), r)
+        }
+        Stack::Hdefault => {
+            let mut h = RecHook::<false>::new(fail_at);
+            let r = guarded(|| go!(&mut h));
+            collect(h, r)
+        }
+        _ => {
+            let mut h = RecHook::<true>::new(fail_at);
+            let r = guarded(|| go!(&mut h));
+            collect(h, r)
+        }
+    }
 }
 
 pub fn run_stack2(
@@ -257,8 +333,22 @@ impl C08 {
         if seq.old.len() > 4000 {
             out.count("many_cells_cases", 1);
         }
-        let reuse = case.reuse && reusable(case.stack) && case.expire_at.is_none();
-        let ok = run_stack2(seq, case.stack, None, case.expire_at, reuse).map_err(pan)?;
+        let slices = case.slices && SLICE_STACKS.contains(&case.stack);
+        if slices {
+            out.count("through_diff_slices_entry_points", 1);
+        }
+        if seq.old.len() > 60_000 {
+            out.count("long_anchor_run_cases", 1);
+        }
+        let reuse = case.reuse && reusable(case.stack) && case.expire_at.is_none() && !slices;
+        let run = |fail_at: Option<usize>| {
+            if slices {
+                run_stack_slices(seq, case.stack, fail_at, case.expire_at)
+            } else {
+                run_stack2(seq, case.stack, fail_at, case.expire_at, reuse)
+            }
+        };
+        let ok = run(None).map_err(pan)?;
         out.execs += 1;
         if ok.result.is_err() {
             return fail("c08.success_ok", "diff failed although no hook call failed".into());
@@ -304,7 +394,7 @@ impl C08 {
         }
         // differential clauses against the sibling stack
         match case.stack {
-            _ if reuse => {}
+            _ if reuse || slices => {}
             Stack::NoFinishH | Stack::RefMutH | Stack::Hdefault => {
                 let base = run_stack(seq, Stack::H, None, case.expire_at).map_err(pan)?;
                 out.execs += 1;
@@ -391,7 +481,7 @@ impl C08 {
         out.gauge("max_calls_per_case", t);
         for k in fault_points(t - 1, case.cap, case.sample_seed, case.only_k) {
             let k = k as usize;
-            let run = run_stack2(seq, case.stack, Some(k), case.expire_at, reuse).map_err(|m| Fail {
+            let run = run(Some(k)).map_err(|m| Fail {
                 clause: "c08.panic",
                 detail: format!("k={}: {}", k, m),
             })?;
@@ -482,7 +572,7 @@ impl Prop for C08 {
         "fault_enumeration"
     }
     fn rule(&self) -> &'static str {
-        "cases are drawn from the run seed (algorithm, sequence pair, sub-ranges, lookup kind, hasher, adapter stack out of 12, optionally a deadline that expires at a drawn probe); a fault-free run records the T calls that reach the user hook, then EVERY k in 0..T is executed with 'call k returns Err(E(k))' (sampled beyond the cap). evaluations = executions of real code; a distinct non-trivial execution = distinct digest of (stack, algorithm, k, calls delivered up to the failure) among executions in which the injected hook error actually fired"
+        "cases are drawn from the run seed (algorithm, sequence pair, sub-ranges, lookup kind, hasher, adapter stack out of 12, entry point diff_deadline with ranges or - a sixth of the cases - diff_slices / diff_slices_deadline on the core slices, optionally a deadline that expires at a drawn probe; at fixed places of every batch a Patience pair with more than 2^16 unique common items in one run and the deadline running out at one of the first checks); a fault-free run records the T calls that reach the user hook, then EVERY k in 0..T is executed with 'call k returns Err(E(k))' (sampled beyond the cap). evaluations = executions of real code; a distinct non-trivial execution = distinct digest of (stack, algorithm, k, calls delivered up to the failure) among executions in which the injected hook error actually fired"
     }
     fn fault_names(&self) -> Vec<&'static str> {
         vec![
@@ -496,7 +586,7 @@ impl Prop for C08 {
     }
     fn components(&self) -> Value {
         json!({
-            "real": ["myers/patience/lcs diff_deadline", "Replace", "Compact", "NoFinishHook", "&mut D forwarding", "DiffHook::replace default"],
+            "real": ["myers/patience/lcs diff_deadline", "algorithms::diff_slices / diff_slices_deadline", "Replace", "Compact", "NoFinishHook", "&mut D forwarding", "DiffHook::replace default"],
             "simulated": ["user hook (recording, fails at call k with a distinct error value)", "clock (indexed expiry)", "hasher", "lookups"]
         })
     }
@@ -509,7 +599,7 @@ impl Prop for C08 {
             Tier::Thorough => 1_500_000,
         }
     }
-    fn gen(&self, rng: &mut Rng, tier: Tier, _idx: u64) -> Case {
+    fn gen(&self, rng: &mut Rng, tier: Tier, idx: u64) -> Case {
         let size = match rng.weighted(&[80, 18, 2]) {
             0 => Size::Small,
             1 => Size::Medium,
@@ -536,8 +626,24 @@ impl Prop for C08 {
                 crate::gen::Alg::Lcs
             };
         }
-        let stack = *rng.pick(&STACKS);
-        let expire_at = if seq.old.len() > 4000 {
+        let slices = rng.chance(1, 6);
+        let mut stack = if slices { *rng.pick(&SLICE_STACKS) } else { *rng.pick(&STACKS) };
+        // at fixed places of every batch: more than 2^16 unique common items in
+        // one run (Patience), with the deadline running out at an early check
+        let anchor_giant = idx % 25_000 == 4321;
+        if anchor_giant {
+            let (o, n) = crate::gen::gen_long_anchor_run(rng);
+            seq.old_range = (0, o.len());
+            seq.new_range = (0, n.len());
+            seq.old = o;
+            seq.new = n;
+            seq.index = crate::gen::IndexKind::Slice;
+            seq.alg = crate::gen::Alg::Patience;
+            stack = *rng.pick(&[Stack::H, Stack::ReplaceH, Stack::NoFinishH, Stack::RefMutH]);
+        }
+        let expire_at = if anchor_giant {
+            if rng.chance(3, 4) { Some(rng.below(4)) } else { None }
+        } else if seq.old.len() > 4000 {
             None
         } else if rng.chance(3, 10) {
             Some(rng.below(1 + (seq.n() + seq.m()) as u64 / 2))
@@ -549,8 +655,10 @@ impl Prop for C08 {
             stack,
             expire_at,
             reuse: rng.chance(1, 4),
+            slices,
             only_k: None,
             cap: match (tier, size) {
+                _ if anchor_giant => 8,
                 (_, Size::Large) => 48,
                 (Tier::Quick, _) => 256,
                 _ => 4096,
@@ -580,6 +688,11 @@ impl Prop for C08 {
             let mut c = case.clone();
             c.expire_at = None;
             c.only_k = None;
+            out.push(c);
+        }
+        if case.slices {
+            let mut c = case.clone();
+            c.slices = false;
             out.push(c);
         }
         if case.reuse {
@@ -619,6 +732,8 @@ impl Prop for C08 {
             ("replace_flush_del_ins", agg.hits[27]),
             ("nofinish_forwarded_replace", c("nofinish_forwarded_replace")),
             ("adapter_reused_for_three_diffs", c("adapter_reused_for_three_diffs")),
+            ("through_diff_slices_entry_points", c("through_diff_slices_entry_points")),
+            ("long_anchor_run_cases", c("long_anchor_run_cases")),
             ("cases_with_over_2^24_cells", c("many_cells_cases")),
         ]
     }
